@@ -124,12 +124,18 @@ def random_case(rng, task, n_vocab=None, n_clips=None):
                 g = None if geomless else geoms.geom_in_box(rng, rng.choice(["BoundingBox", "BoundingBox", "TimeInterval", "Polygon", "LineString", "Point"]), *slots[s])
                 clip["events"].append({"kind": "ann", "slot": s, "geom": g, "ann_tags": _true_tags(rng, vocab, pool)})
             for _ in range(npred):
-                how = rng.choice(["on_annotation", "on_annotation", "shifted", "free_slot", "far", "geomless"])
-                if how in ("on_annotation", "shifted") and a_slots:
+                how = rng.choice(["on_annotation", "on_annotation", "shifted", "free_slot", "far", "geomless", "diagonal", "other_band"])
+                if how in ("on_annotation", "shifted", "diagonal", "other_band") and a_slots:
                     s = rng.choice(a_slots)
                     b = slots[s]
                     if how == "shifted":
                         b = (b[0] + 0.5, b[1] + 0.5, b[2], b[3])
+                    elif how == "diagonal":
+                        # just past the annotation in time AND just above it in frequency: disjoint on both axes at once
+                        b = (b[1] + 0.1, b[1] + 1.1, b[3] + 100.0, b[3] + 1100.0)
+                    elif how == "other_band":
+                        # same time, another frequency band: disjoint in frequency only
+                        b = (b[0], b[1], b[3] + 500.0, b[3] + 1500.0)
                 else:
                     s = rng.randrange(len(slots))
                     b = slots[s]
